@@ -745,6 +745,105 @@ Proof.
   pose proof (items_loop_std its vs [] [] HF) as L. rewrite app_nil_r in L. rewrite L. reflexivity.
 Qed.
 
+(* ---- rejection lifted to the carriers (C08.7): an item whose length is impossible for its id makes
+        T0x0200.Parse fail, and makes T0x0704.Parse fail wherever the report sits in the batch ---- *)
+Lemma exists_tlv_nonempty (P : N * list N -> Prop) items : Exists P items -> 2 <= len (flat_map tlv items).
+Proof.
+  intros H. destruct items as [|it items]. inversion H.
+  cbn [flat_map]. rewrite len_app. unfold tlv. rewrite !len_cons. lia.
+Qed.
+
+Lemma adds_of_reject blk items : len blk = 28 -> Exists (fun it => bad_len it = true) items ->
+  adds_of (blk ++ flat_map tlv items) = Err E_LEN.
+Proof.
+  intros Hb Hex. pose proof (exists_tlv_nonempty _ _ Hex) as Hn. unfold adds_of.
+  replace (28 <? len (blk ++ flat_map tlv items)) with true by (rewrite len_app; lia).
+  rewrite slice_from_ok by (rewrite len_app; lia).
+  replace (N.to_nat 28) with (List.length blk) by (unfold len in Hb; lia).
+  rewrite skipn_app, skipn_all, Nat.sub_diag. cbn [skipn app bind]. now apply reject_std.
+Qed.
+
+Theorem reject_0200 r blk items : len blk = 28 -> Exists (fun it => bad_len it = true) items ->
+  t0200_parse r (blk ++ flat_map tlv items) = Err E_LEN.
+Proof.
+  intros Hb Hex. rewrite t0200_parse_split.
+  destruct (block_std (blk ++ flat_map tlv items)) as (v & Ev & _). { rewrite len_app. lia. }
+  rewrite Ev. cbn [bind]. rewrite adds_of_reject by assumption. reflexivity.
+Qed.
+
+(* the reports in front of the bad one are consumed exactly as in items_loop_std *)
+Lemma items_loop_prefix pre : forall vs k acc rest,
+  Forall2 (fun it v => t0200_parse fresh_0200 it = Ok v /\ len it < 65536) pre vs ->
+  items_loop (List.length pre + k) (flat_map frame0704 pre ++ rest) acc =
+  items_loop k rest
+    (acc ++ map (fun p => {| i_len := len (fst p); i_loc := t_loc (snd p); i_adds := t_adds (snd p) |})
+                (combine pre vs)).
+Proof.
+  induction pre as [|it its IH]; intros vs k acc rest HF; inversion HF as [|? v ? vs' [Hp Hl] HF']; subst.
+  - cbn [List.length combine map flat_map app Nat.add]. now rewrite app_nil_r.
+  - cbn [List.length flat_map Nat.add items_loop]. change (frame0704 it) with (be_enc 2 (len it) ++ it).
+    rewrite <- !app_assoc.
+    replace (len (be_enc 2 (len it) ++ it ++ flat_map frame0704 its ++ rest) <? 2) with false
+      by (rewrite len_app, be_enc_len; lia).
+    rewrite (take_app_n 2) by apply be_enc_len. cbn [bind fst snd].
+    rewrite be_dec_enc2 by exact Hl.
+    replace (len (it ++ flat_map frame0704 its ++ rest) <? len it) with false by (rewrite len_app; lia).
+    rewrite take_app. cbn [bind fst snd].
+    destruct (t0200_ok_inv _ _ _ Hp) as [Hb Ha]. rewrite Hb. cbn [bind].
+    fold (adds_of it). rewrite Ha. cbn [bind].
+    rewrite IH with (vs := vs') by exact HF'. cbn [combine map fst snd]. now rewrite <- app_assoc.
+Qed.
+
+(* the loop fails on a report that carries an inadmissible item *)
+Lemma items_loop_reject k blk items acc rest :
+  len blk = 28 -> Exists (fun it => bad_len it = true) items -> len (blk ++ flat_map tlv items) < 65536 ->
+  items_loop (S k) (frame0704 (blk ++ flat_map tlv items) ++ rest) acc = Err E_LEN.
+Proof.
+  intros Hb Hex Hl. set (bad := blk ++ flat_map tlv items) in *.
+  cbn [items_loop]. change (frame0704 bad) with (be_enc 2 (len bad) ++ bad). rewrite <- app_assoc.
+  replace (len (be_enc 2 (len bad) ++ bad ++ rest) <? 2) with false by (rewrite len_app, be_enc_len; lia).
+  rewrite (take_app_n 2) by apply be_enc_len. cbn [bind fst snd].
+  rewrite be_dec_enc2 by exact Hl.
+  replace (len (bad ++ rest) <? len bad) with false by (rewrite len_app; lia).
+  rewrite take_app. cbn [bind fst snd].
+  destruct (block_std bad) as (v & Ev & _).
+  { unfold bad. rewrite len_app. lia. }
+  rewrite Ev. cbn [bind]. fold (adds_of bad). unfold bad. rewrite adds_of_reject by assumption. reflexivity.
+Qed.
+
+Theorem reject_0704 r ty pre vs blk items post :
+  Forall2 (fun it v => t0200_parse fresh_0200 it = Ok v /\ len it < 65536) pre vs ->
+  len blk = 28 -> Exists (fun it => bad_len it = true) items ->
+  len (blk ++ flat_map tlv items) < 65536 ->
+  len (pre ++ (blk ++ flat_map tlv items) :: post) < 65536 ->
+  t0704_parse r (std_0704 ty (pre ++ (blk ++ flat_map tlv items) :: post)) = Err E_LEN.
+Proof.
+  intros HF Hb Hex Hl Hn. set (bad := blk ++ flat_map tlv items) in *. set (its := pre ++ bad :: post) in *.
+  assert (Hflat : flat_map frame0704 its = flat_map frame0704 pre ++ frame0704 bad ++ flat_map frame0704 post).
+  { unfold its. rewrite flat_map_app. reflexivity. }
+  assert (H31 : 31 <= len (std_0704 ty its)).
+  { assert (Hbad : 30 <= len bad).
+    { unfold bad. rewrite len_app. pose proof (exists_tlv_nonempty _ _ Hex). lia. }
+    unfold std_0704. rewrite !len_app, be_enc_len, len_cons, Hflat, !len_app.
+    change (frame0704 bad) with (be_enc 2 (len bad) ++ bad). rewrite len_app, be_enc_len. lia. }
+  unfold t0704_parse. replace (len (std_0704 ty its) <? 31) with false by lia.
+  unfold std_0704 in *.
+  assert (E2 : be_at (be_enc 2 (len its) ++ [ty] ++ flat_map frame0704 its) 0 2 = Ok (len its)).
+  { rewrite be_at_app_head by apply be_enc_len. now rewrite be_dec_enc2. }
+  rewrite E2. cbn [bind].
+  assert (E3 : idx (be_enc 2 (len its) ++ [ty] ++ flat_map frame0704 its) 2 = Ok ty).
+  { unfold idx. rewrite nth_error_app2 by (rewrite be_enc_length; cbn; lia).
+    rewrite be_enc_length. reflexivity. }
+  rewrite E3. cbn [bind].
+  assert (E4 : slice_from (be_enc 2 (len its) ++ [ty] ++ flat_map frame0704 its) 3 = Ok (flat_map frame0704 its)).
+  { rewrite slice_from_ok by (rewrite !len_app, be_enc_len, len_cons; lia). reflexivity. }
+  rewrite E4. cbn [bind].
+  replace (N.to_nat (len its)) with (List.length pre + S (List.length post))%nat
+    by (unfold len, its; rewrite app_length; cbn [List.length]; lia).
+  rewrite Hflat, (items_loop_prefix pre vs _ _ _ HF).
+  rewrite items_loop_reject by assumption. reflexivity.
+Qed.
+
 (* 0x0801: the block sits at bytes 8..36 *)
 Theorem t0801_std r id ty fm ev ch blk pkg :
   id < 4294967296 -> len blk = 28 ->
